@@ -73,6 +73,10 @@ func c18Record(i int, raw []byte) Result {
 		}
 		c.Prof = pr
 		k := 1 + rnd.Intn(q.K)
+		if k >= 2 && rnd.Intn(3) == 0 {
+			pr.Missing = 1 + rnd.Intn(k) // the part declared at this position is absent from the archive
+			c.Prof = pr
+		}
 		ndecoy := rnd.Intn(3)
 		nextra := 0
 		if pr.Extra {
@@ -97,7 +101,8 @@ func c18Record(i int, raw []byte) Result {
 			if !h.Abs {
 				full = append(append([]string{}, c.Base...), rel...)
 			}
-			return c18Part{ID: id, Name: c18Name{Dir: c18Norm(full), Stem: stem, Sp: sp, N: n, Ext: ext}, Href: h, Decl: decl, Rel: rl, Zip: zp}
+			return c18Part{ID: id, Name: c18Name{Dir: c18Norm(full), Stem: stem, Sp: sp, N: n, Ext: ext}, Href: h, Decl: decl, Rel: rl, Zip: zp,
+				Present: decl == 0 || decl != pr.Missing}
 		}
 		for j := 0; j < total; j++ {
 			role := roles[j]
@@ -112,10 +117,19 @@ func c18Record(i int, raw []byte) Result {
 				c.Parts = append(c.Parts, mk(91, n, 0, k+1, zipPerm[j]+1))
 			}
 		}
+		// a decoy under the conventional name of the missing position (real parts live elsewhere)
+		if pr.Missing > 0 && pr.Paths != "std" && c.Fmt != "epub" && rnd.Intn(2) == 0 {
+			cdir := map[string][]string{"xlsx": {"xl", "worksheets"}, "pptx": {"ppt", "slides"}}[c.Fmt]
+			cstem := map[string]string{"xlsx": "sheet", "pptx": "slide"}[c.Fmt]
+			d := mk(95, pr.Missing, 0, 0, total+1)
+			d.Name.Dir, d.Name.Stem = cdir, cstem
+			d.Href.Abs, d.Href.Segs, d.Href.Stem = false, cdir[1:], cstem
+			c.Parts = append(c.Parts, d)
+		}
 		// for the signature hint only (never for the verdict): ids by declared position
 		ps := []c18Part{}
 		for _, p := range c.Parts {
-			if p.Decl > 0 {
+			if p.Decl > 0 && p.Present {
 				ps = append(ps, p)
 			}
 		}
@@ -144,7 +158,9 @@ func c18Record(i int, raw []byte) Result {
 		for _, a := range obs {
 			events = append(events, Event{"event": "Begin", "api": a.Name})
 			if a.Err != "" {
-				events = append(events, Event{"event": "Error", "api": a.Name, "msg": a.Err})
+				if c.Prof.Missing == 0 { // refusing a package with an absent declared part is not asserted
+					events = append(events, Event{"event": "Error", "api": a.Name, "msg": a.Err})
+				}
 				continue
 			}
 			if a.Pages == nil && a.Flat == nil {
